@@ -17,7 +17,7 @@ import glob, json, os
 from .common import *
 from .core import multi_runs, nontrivial
 
-GCONST = {"N": "4", "Stake": "<- S4", "Honest": "{1,2,3}", "MaxRound": "10", "Variants": "{0,1}", "Weaken": "{}", "CommitAlgo": '"fixed"',
+GCONST = {"LatePayload": "FALSE", "N": "4", "Stake": "<- S4", "Honest": "{1,2,3}", "MaxRound": "10", "Variants": "{0,1}", "Weaken": "{}", "CommitAlgo": '"fixed"',
           "MaxTimeouts": "100", "MaxByzMsgs": "100", "SchedDepth": "100000"}
 INVS = ["Agreement", "DeliveredIsChain", "CertSafe", "VoteOncePerRound", "VoteJustified", "NoVoteAfterTimeout", "CommitNeedsTwoChain",
         "RoundMonotone", "RoundNeedsCertificate", "TimeoutCarriesHighQC", "HonestNoEquivocation", "VoteOnlyLeaderBlocks", "StoredClosedUnderParent"]
@@ -145,12 +145,14 @@ def run(ctx):
             ctx.log("attack script %s is not a valid attack for the current specification (skipped)" % os.path.basename(path))
     if not q:
         # fresh attacks found by TLC in this run
-        for w in ["quorum", "vote_once", "rule2", "rule2_tc_hqr", "timeout_bump", "commit_consecutive"]:
-            r = simulate(ctx, "attack-search-" + w, {}, 3000, 160, weaken=w, invs=["AgreementJ"], timeout=400)
+        for w in ["quorum", "vote_once", "rule2", "rule2_tc_hqr", "timeout_bump", "commit_consecutive", "qc_after_payload"]:
+            late = w == "qc_after_payload"
+            over = dict(LatePayload="TRUE", Honest="{0,1,2}") if late else {}
+            r = simulate(ctx, "attack-search-" + w, over, 12000 if late else 3000, 200 if late else 160, weaken=w, invs=["AgreementJ"], timeout=600 if late else 400)
             m = re.search(r'<<"ATTACK", "(.*)">>', r["out"])
             if m:
                 j = json.loads(m.group(1).replace('\\"', '"'))
-                s = {"weaken": w, "n": 4, "stakes": [1, 1, 1, 1], "honest": [1, 2, 3], "maxround": 10, "acts": j["acts"]}
+                s = {"weaken": w, "n": 4, "stakes": [1, 1, 1, 1], "honest": [0, 1, 2] if late else [1, 2, 3], "maxround": 10, "acts": j["acts"]}
                 p = ctx.path("fresh-attack-%s.json" % w)
                 json.dump(s, open(p, "w"))
                 if validate_script(ctx, p, s):
@@ -158,13 +160,19 @@ def run(ctx):
     if len(scripts) < 3:
         raise ToolError("fewer than 3 valid attack scripts")
     ctx.samples = [{"attack_on": s["weaken"], "first_steps": s["acts"][:6], "steps": len(s["acts"])} for _, s in scripts[:3]]
-    st, rep, tpath = replay_schedules(ctx, hs, "attacks", [json.dumps({"acts": s["acts"]}) for _, s in scripts], 4, [1, 1, 1, 1], [1, 2, 3])
-    ctx.extra["attack_replays"] = [{"weaken": s["weaken"], **run_} for (_, s), run_ in zip(scripts, st["runs"])]
-    for (_, s), run_ in zip(scripts, st["runs"]):
-        ctx.log("attack %-20s on real nodes: %d/%d steps executed, %d refused, commit rounds %s" % (
-            s["weaken"], run_["executed"], run_["steps"], run_["refused"], run_["commit_rounds"]))
-    report_agreement(ctx, rep, tpath, "attack schedule", lambda i: {"kind": "attack script", "weaken": scripts[i][1]["weaken"] if i < len(scripts) else None,
-                                                                  "acts": scripts[i][1]["acts"] if i < len(scripts) else None})
+    # the rig is configured per committee / set of honest authorities: group the scripts
+    groups = {}
+    for path, s in scripts:
+        groups.setdefault((s["n"], tuple(s.get("stakes", [1] * s["n"])), tuple(s["honest"])), []).append((path, s))
+    ctx.extra["attack_replays"] = []
+    for gi, ((n_, stakes_, honest_), grp) in enumerate(sorted(groups.items())):
+        st, rep, tpath = replay_schedules(ctx, hs, "attacks%d" % gi, [json.dumps({"acts": s["acts"]}) for _, s in grp], n_, list(stakes_), list(honest_))
+        ctx.extra["attack_replays"] += [{"weaken": s["weaken"], **run_} for (_, s), run_ in zip(grp, st["runs"])]
+        for (_, s), run_ in zip(grp, st["runs"]):
+            ctx.log("attack %-20s on real nodes: %d/%d steps executed, %d refused, commit rounds %s" % (
+                s["weaken"], run_["executed"], run_["steps"], run_["refused"], run_["commit_rounds"]))
+        report_agreement(ctx, rep, tpath, "attack schedule", lambda i, grp=grp: {"kind": "attack script", "weaken": grp[i][1]["weaken"] if i < len(grp) else None,
+                                                                      "acts": grp[i][1]["acts"] if i < len(grp) else None})
     # ---- 3. schedules of the unweakened model on real nodes
     for name, (behs, n, stakes, honest) in scheds.items():
         behs = behs[: (25 if q else 400)]
